@@ -723,13 +723,15 @@ impl<H: NodeHasher> PageWalker<H> {
         let stack_top = self.stack.last_mut().unwrap();
         stack_top.page.set_node(node_index, node);
 
+        // The slot is always recorded as changed: the clear bit is erased by the next
+        // `set_changed` (e.g. when the sibling becomes non-empty later in the same walk) and the
+        // WAL only carries the slots recorded here.
+        stack_top.diff.set_changed(node_index);
         if self.position.is_first_layer_in_page()
             && node == TERMINATOR
             && sibling_node == TERMINATOR
         {
             stack_top.diff.set_cleared();
-        } else {
-            stack_top.diff.set_changed(node_index);
         }
     }
 
